@@ -238,6 +238,11 @@ class Engine:
                         outs.append(Outcome('cut', TOP, s, (fn['path'], bb)))
                     break
                 self.on_block(fn, fid, bb, s, n)
+                if n == 1 and not getattr(self, '_in_fill', False):
+                    ex_ = self._try_fill_loop(fn, fid, bb, s, depth)
+                    if ex_ is not None:
+                        bb = ex_
+                        continue
                 b = fn['blocks'][bb]
                 for sti in b['stmts']:
                     if 'lhs' in sti:
@@ -397,6 +402,104 @@ class Engine:
         return outs
 
     # ------------------------------------------------------------------------------------------------
+    def _try_fill_loop(self, fn, fid, bb, s, depth):
+        """`for item in <iter_mut over place P> { *item = V }` with a loop-invariant V and no other effect is the assignment P := filled(V) (std contract
+        of `for` over a mutable slice / array iterator: every element is visited once). Returns the block after the loop, or None if bb does not
+        head such a loop. The body is evaluated once on a fresh item to establish that it stores V into the item and does nothing else."""
+        b = fn['blocks'][bb]
+        t = b['term']
+        if t['k'] != 'call' or b.get('cleanup') or t.get('dest', {}).get('p') or len(t.get('args', ())) != 1:
+            return None
+        callee = t.get('resolved') or t.get('callee') or ''
+        if not re.search(r'slice::iter::IterMut<.*> as core::iter::traits::iterator::Iterator>::next$|array::iter::IntoIter<&mut ', callee) and short(callee) != 'IterMut::next':
+            return None
+        heads = getattr(self, '_loop_heads', None)
+        if heads is None:
+            heads = self._loop_heads = {}
+        if fn['path'] not in heads:
+            from .cfg import CFG
+            heads[fn['path']] = {h for (_x, h) in CFG(fn).back_edges()}
+        if bb not in heads[fn['path']]:
+            return None
+        b1 = fn['blocks'][t['t']] if t.get('t') is not None else None
+        if not b1 or b1['stmts'][1:] or b1['term']['k'] != 'switch':
+            return None
+        sw = b1['term']
+        arms = {int(a[0]): a[1] for a in sw['arms']}
+        body_bb = arms.get(1)
+        exit_bb = arms.get(0, sw.get('otherwise'))
+        if body_bb is None or exit_bb is None:
+            return None
+        # the iterated place
+        s1 = s.fork()
+        for sti in b['stmts']:
+            if 'lhs' in sti:
+                self.assign(sti['lhs'], self.rvalue(sti['rv'], fn, fid, s1), fn, fid, s1, sti['sp'])
+        it = self.operand(t['args'][0], fn, fid, s1)
+        if isinstance(it, tuple) and it[0] == 'ref':
+            it = self.load(it[1], it[2], s1)
+        if not (isinstance(it, tuple) and it[0] == 'term' and re.search(r'into_iter$|iter_mut$', it[1]) and len(it[2]) == 1 and isinstance(it[2][0], tuple)):
+            return None
+        target = it[2][0]
+        if target[0] == 'sym' and re.fullmatch(r'\w+(\.\w+)+', str(target[1])):
+            # the opaque iterator constructor kept only the printed path (`self.buffer`): find the parameter object it names and rebuild the place
+            base, *flds = target[1].split('.')
+            target = None
+            for pi in range(1, fn.get('argc', 0) + 1):
+                pv = s.mem.get((fid, pi))
+                if not (isinstance(pv, tuple) and pv[0] == 'ref' and not pv[2]):
+                    continue
+                ov = self.load(pv[1], (), s)
+                if not (isinstance(ov, tuple) and ov[0] in ('sym', 'rec') and ov[1] == base):
+                    continue
+                ty = re.sub(r"^&(?:'\w+ )?(?:mut )?", '', fn['locals'][pi]['ty'])
+                proj = []
+                for fname in flds:
+                    a = self.p.adts.get(ty)
+                    fl = [(i_, f_) for i_, f_ in enumerate(a['variants'][0]['fields'])] if a and not a.get('enum') else []
+                    hit = [(i_, f_) for i_, f_ in fl if f_['name'] == fname]
+                    if not hit:
+                        proj = None
+                        break
+                    proj.append(('f', hit[0][0], fname, ty, hit[0][1]['ty']))
+                    ty = hit[0][1]['ty']
+                if proj:
+                    target = ('ref', pv[1], tuple(proj))
+                break
+        if not (isinstance(target, tuple) and target[0] == 'ref'):
+            return None
+        item = self.sym_ref(s1, 'fill#item')
+        s1.mem[(fid, t['dest']['l'])] = self.adt_val('core::option::Option', 'Some', [item])
+        for st_ in b1['stmts']:
+            if 'lhs' in st_:
+                self.assign(st_['lhs'], self.rvalue(st_['rv'], fn, fid, s1), fn, fid, s1, st_['sp'])
+        ne, nd = len(s1.events), len(s1.decisions)
+        s1.visits[(fid, bb)] = 10 ** 6
+        self._in_fill = True
+        try:
+            outs = self._explore(fn, fid, [(body_bb, s1)], depth)
+        except TooManyPaths:
+            outs = []
+        finally:
+            self._in_fill = False
+        if len(outs) != 1 or outs[0].kind not in ('cut', 'loop-closed') or not (isinstance(outs[0].site, tuple) and outs[0].site[1] == bb):
+            return None
+        o = outs[0]
+        if len(o.st.decisions) != nd:
+            return None
+        for e in o.st.events[ne:]:
+            if e[0] == 'write' or (e[0] == 'call' and not re.search(r'::default$', e[1]) and not (e[5] and 'tracing' in e[5])):
+                return None
+        v = self.purify(self.load(item[1], item[2], o.st), o.st)
+        if v == TOP or contains(v, lambda x: isinstance(x, tuple) and x[0] == 'sym' and str(x[1]).startswith('fill#item')):
+            return None
+        val = ('term', 'filled', [v])
+        self.store(target[1], target[2], val, s)
+        fsteps = [st_ for st_ in target[2] if st_[0] == 'f' and len(st_) > 3 and st_[3]]
+        if fsteps:
+            s.events.append(('write', fsteps[-1][3], fsteps[-1][2], val, (fn['path'], t['sp']['line']), '.'.join(str(st_[2]) for st_ in target[2] if st_[0] == 'f')))
+        return exit_bb
+
     def on_assert(self, t, fn, fid, s):
         pass
 
@@ -1075,6 +1178,30 @@ class Engine:
                     s.events.append(('write', fsteps[-1][3], fsteps[-1][2], new, (fn['path'], t['sp']['line']),
                                      '.'.join(st_[2] for st_ in fsteps)))
             return one(UNIT)
+        if re.match(r'core::bool::<impl bool>::then_some$', c) and len(args) == 2:
+            # b.then_some(v): Some(v) iff b — the decision `if b { Some(v) } else { None }` records
+            b, v = self.strip(dv(0), s), args[1]
+            if is_c(v) or (isinstance(v, tuple) and v[0] == 'term' and v[1] in ('str', 'const', 'bytes')):
+                # a literal payload (`flag.then_some("shift")`): nothing downstream depends on where it came from, and a row of such calls would
+                # only multiply traces — kept as an opaque Option
+                return None if False else [(self.opaque_call(callee, t, args, s), s)]
+            if is_c(b):
+                return one(self.adt_val('core::option::Option', 'Some', [v]) if b[1] else self.adt_val('core::option::Option', 'None'))
+            atom, neg = self._atom(b)
+            f = s.facts.get(key(atom))
+            outs_ = []
+            for val in (1, 0):
+                dec = (1 - val) if neg else val
+                if isinstance(f, int) and f != dec:
+                    continue
+                s2 = s if (val == 0 or isinstance(f, int)) else s.fork()
+                if not isinstance(f, int):
+                    s2.facts[key(atom)] = dec
+                    s2.decisions.append((atom, dec, (fn['path'], t['sp']['line'])))
+                outs_.append((self.adt_val('core::option::Option', 'Some', [v]) if val else self.adt_val('core::option::Option', 'None'), s2))
+            if len(outs_) == 2:
+                self.npaths += 1
+            return outs_
         m = re.match(r'core::num::<impl (u\d+|usize)>::checked_sub$', c)
         if m and getattr(self, 'fork_checked', True):
             # a.checked_sub(b) on unsigned integers: Some(a − b) iff a ≥ b — the same decision an explicit `a >= b` guard would record
